@@ -210,7 +210,7 @@ def gen_case(f, ch, small=False):
             given.append((o, [None]))
         elif o["mode"] == "multi":
             given.append((o, [value_text(ch, o["type"], o["nullable"], small=small) for _ in range(ch.randint(1, 2 if small else 3))]))
-        elif o["mode"] == "opt" and (o["default"] is not None or o["nullable"]) and ch.flip(0.3):
+        elif o["mode"] == "opt" and ch.flip(0.3):  # an optional value that is not given: the option reports its default (None if it has none)
             given.append((o, [None]))
         else:
             given.append((o, [value_text(ch, o["type"], o["nullable"], small=small)]))
